@@ -15,6 +15,9 @@ ASSUME = [
     'population-predictive individuals are identified under scripted generators with integer population parameters and their '
     'laws checked by TLC (SampleAlgebra); the measurement stage is identified with the first stage held fixed and compared '
     'numerically (1e-12) with the error-model law around the mechanistic output; NumPy primitives trusted',
+    'posterior / averaged provenance: 1200 samples each from a coded 3 chains x 4 draws x 3 individuals posterior; every row must '
+    'be drawn and the counts pass chi-square / binomial tests at level 1e-9 against Predictive!PosteriorLaw / AveragedLaw '
+    '(structural errors are rejected, sampling noise is not)',
     'the population model is put through set_n_ids(2) before sampling with 1-3 samples (a likelihood or controller would do so)',
 ]
 
@@ -31,8 +34,9 @@ def _compute(tier, seed):
     good = [x for x in stage1 if 'error' not in x]
     sres, sverd = validate_traces.validate_samples(good, tag='c15') if good else (None, [])
     stage2 = replay_predictive.measurement_stage_checks(seed)
+    stage3 = replay_predictive.posterior_law_checks(seed)
     return dict(run=r.summary(), n=len(recs), results=results, stage1=[(g['name'], v) for g, v in zip(good, sverd)],
-                stage1_errors=errs, stage2=stage2, samples=[recs[len(recs) // 3], recs[-1]],
+                stage1_errors=errs, stage2=stage2, stage3=stage3, samples=[recs[len(recs) // 3], recs[-1]],
                 srun=sres.summary() if sres else None)
 
 
@@ -53,6 +57,9 @@ def run(tier, seed):
                            features=['population_stage']))
     for clause, man, detail in out['stage2']:
         v.failure(dict(case=dict(stage='measurement'), clause=clause, manifestation=man, detail=detail, features=['measurement_stage']))
+    for clause, man, detail in out['stage3']:
+        v.failure(dict(case=dict(stage='posterior_law'), clause=clause, manifestation=man, detail=detail, features=['posterior_law']))
+    v.count('posterior_law_samples', 2400)
     for s in out['samples']:
         v.sample({k: s[k] for k in ('kind', 'nout', 'times', 'sorted', 'nsamp', 'ncov', 'regimen', 'labels')})
     nt = v.counters.get('feat_unsorted_times', 0)
